@@ -22,7 +22,7 @@ def run(cfg):
     return {
         "evaluations": n + meta.get("oracle_checked", 0),
         "distinct_nontrivial": meta.get("distinct_nontrivial", 0),
-        "rule": "after every step (successful, failed, undo, redo) of seeded vh_hist histories from the seed workbook, and after load and after evaluate of the repository's .xlsx test files (a third of them per quick run, all in thorough), the skeleton of model.workbook is dumped and judged by the extracted wf_workbook_b and by its Rust re-implementation. Non-trivial = history steps + 2 x loaded files",
+        "rule": "descriptor surgery of delete_columns / insert_columns: every well-formed layout over 6 (thorough 7) columns at both ends of the grid x every band, implementation vs extracted model; after every step (successful, failed, undo, redo) of seeded vh_hist histories from the seed workbook, and after load and after evaluate of the repository's .xlsx test files (a third of them per quick run, all in thorough), the skeleton of model.workbook is dumped and judged by the extracted wf_workbook_b and by its Rust re-implementation. Non-trivial = history steps + 2 x loaded files",
         "samples": meta.get("samples", []),
         "disagreements": dis, "n_disagreements": ndis,
         "oracle_failures": meta.get("oracle_failures", []),
